@@ -15,7 +15,8 @@ RULE = ("random configs (1-3 rulesets x 1-3 groups x 1-3 detectors x 1-4 actions
 ASSUMPTIONS = ["scripted v_det/v_act plugins use only the public plugin API",
                "virtual CLOCK_MONOTONIC via interposed clock_gettime; ticks driven through interposed sigtimedwait",
                "reference state machine is the reading of docs/configuration.md given in DESIGN.md appendix B"]
-OWN = {"C02"}
+# the chain-start clause of C02 names the post-action pause, so the pause rules are owned here too
+OWN = {"C02", "C05"}
 
 BASE_WORLD = {"proc": W.proc(), "cgroups": {"/": W.root_cgroup()}}
 
